@@ -38,6 +38,10 @@ def run_case(case):
         return {"outcome": "skip", "reason": "ref-rejected"}
     tgaps = [g for g in m.gaps if g not in ("latinsquare", "sequential-with-preamble", "run-constraint-on-strided-factor",
                                             "derived-none-universe", "transition-over-complex-arg")]
+    if "nest-reference" in tgaps and ast["block"]["kind"] == "nest" and all(c.pre == 0 for c in m.crossings):
+        # the trial count of a preamble-free Nest is documented (outer count x inner count, each with its own
+        # MinimumTrials); only the sequences of a Nest have no reference enumeration
+        tgaps = [g for g in tgaps if g != "nest-reference"]
     if tgaps:
         return {"outcome": "skip", "reason": "doc-gap:" + tgaps[0]}
     import sweetpea as sp
